@@ -37,7 +37,7 @@ def ChangeOk (s : Store) (c : ChangeV) : Prop :=
   (∀ sn, c.snap = some sn → StoredBefore s c.tree c.order sn) ∧
   (headsAt s c.tree).isSome ∧ StoredIn s c.tree c.tree
 
-/-- heads entry of a tree that still has its root: non-empty, names stored changes of that tree; the
+/-- heads entry of a tree that still has its root (a deleted tree keeps its entry but no change): non-empty, names stored changes of that tree; the
 recorded common snapshot is a stored change of that tree -/
 def HeadsOk (s : Store) (t : Nat) (h : HeadsV) : Prop :=
   h.heads ≠ [] ∧ (∀ x ∈ h.heads, StoredIn s t x) ∧ (∀ x, h.cs = some x → StoredIn s t x)
@@ -57,7 +57,7 @@ def AclOk (s : Store) (acl : Nat) : Prop :=
 /-- the durable-state predicate of C10 (the four clauses of the property text) -/
 structure Consistent (s : Store) (acl : Nat) : Prop where
   changes : ∀ id c, changeAt s id = some c → ChangeOk s c
-  heads   : ∀ t h, t ≠ acl → headsAt s t = some h → (changeAt s t).isSome → HeadsOk s t h
+  heads   : ∀ t h, t ≠ acl → headsAt s t = some h → StoredIn s t t → HeadsOk s t h
   acl     : AclOk s acl
 
 /-! ### executable version (driver) -/
@@ -109,7 +109,7 @@ def consistentB (s : Store) (acl : Nat) : Bool :=
   s.docs.all (fun kv => match kv.1.coll, kv.2 with
     | .changes, .change c => if changeAt s kv.1.id = some c then changeOkB s c else true
     | .heads, .heads h =>
-      if kv.1.id ≠ acl ∧ headsAt s kv.1.id = some h ∧ (changeAt s kv.1.id).isSome then headsOkB s kv.1.id h else true
+      if kv.1.id ≠ acl ∧ headsAt s kv.1.id = some h ∧ storedInB s kv.1.id kv.1.id then headsOkB s kv.1.id h else true
     | _, _ => true) &&
   aclOkB s acl
 
